@@ -648,7 +648,7 @@ def run_check(cls, argv=None):
               assumptions=trusted, wall_s=round(time.time() - t0, 2), violations=violations)
     os.makedirs(os.path.join(VERIF, 'evidence'), exist_ok=True)
     # development runs without the proof step or against another tree never touch the committed evidence
-    ev_name = pid + '.json' if not (args.skip_proof or args.replay or os.environ.get('ELFI_REPO', '/repo') != '/repo') else pid + '.dev.json'
+    ev_name = pid + '.json' if not (args.skip_proof or args.replay or os.environ.get('VERIF_SEEDTEST') or os.environ.get('ELFI_REPO', '/repo') != '/repo') else pid + '.dev.json'
     with open(os.path.join(VERIF, 'evidence', ev_name), 'w') as f:
         json.dump(ev, f, indent=1, sort_keys=True, default=jdefault)
     for l in lines:
